@@ -30,11 +30,16 @@ TEXT_ALLOW = {
 
 def enc_rule(repo, res, rule="ENC", tier="quick"):
     for mod in RE.EMITTERS:
+        encs = X.find_encoders(repo, mod)
         fq = f"{mod}::make_string_constant"
-        fn = repo.fn(fq)
-        if fn is None:
-            res.undecided(rule, f"{rule}:{fq}", "encoder not found")
-            continue
+        if len(encs) != 1:
+            # fall back on the historical name: a function of that name whose shape is not a quoted replace chain is reported as undecidable
+            fn = repo.fn(fq)
+            if fn is None:
+                res.undecided(rule, f"{rule}:{fq}", f"{len(encs)} functions of {mod} have the shape of a string-constant encoder (cannot pick one)")
+                continue
+        else:
+            fn = encs[0]
         ch = X.extract_chain(fn)
         if ch is None:
             res.undecided(rule, f"{rule}:{fq}", "encoder is not a recognisable replace chain (cannot decide)", fn.loc())
@@ -58,7 +63,8 @@ def sink_rule(repo, res, ty, rule="SINK"):
     own double quotes, so a hole fed by it must sit outside double quotes in its template."""
     from vlib import taint as T
 
-    enc = T.Taint(repo, ty, {"make_string_constant"})
+    enc_names = {"make_string_constant"} | {f.name for mod in RE.EMITTERS for f in X.find_encoders(repo, mod)}
+    enc = T.Taint(repo, ty, enc_names)
     anyt = T.Taint(repo, ty, set())
     floors = {"bash": 1, "fish": 2, "zsh": 2, "pwsh": 2}
     n = 0
@@ -66,7 +72,7 @@ def sink_rule(repo, res, ty, rule="SINK"):
         used = 0
         seq = {}
         for fn, s, idx, nm, e, t, env in RE.all_holes(repo, mod, ty):
-            if s.macro not in ("write", "writeln") or fn.name == "make_string_constant":
+            if s.macro not in ("write", "writeln") or fn.name in enc_names:
                 continue
             n += 1
             what = RE.hole_text(repo, fn, e)
